@@ -9,8 +9,9 @@
      n    the parameter's position (0 for lines that belong to no parameter)
      typ  the type written on the line ("absent" if none)      doc  the description class
      lex  the lexical class of the text after "Defaults to" ("none" when no default is carried)
-   EmitLines(cfg, i)   what the emitter writes.     asBuilt = TRUE reproduces the one structural departure of the real
-                       NumPy emitter: an entry whose type is not written gets NO name line at all.
+   EmitLines(cfg, i)   what the emitter writes.     asBuilt = TRUE reproduces the structural departures of the real NumPy / Google
+                       emitters: a RETURN entry whose type is not written gets no type line at all; a return-only section is
+                       glued to its header.  (Parameters whose type is not written lost their name line too, until repaired.)
    ParseLines(st, ls)  a fold over the lines, per style, returning an interface.
    RoundTripLines      ParseLines(EmitLines(i)) agrees with DocRules!Norm(cfg, i) -- a theorem about two separately
                        written halves, checked by TLC on the ideal emitter.                                        *)
@@ -55,7 +56,7 @@ EmitParam(cfg, p, n, asBuilt) ==
          <<L("param", n, "absent", p.doc, lx)>> \o (IF w THEN <<L("type", n, t, "absent", "none")>> ELSE <<>>) \o <<Blank>>
     [] cfg.style = "google" -> <<L("garg", n, t, p.doc, lx)>>
     [] cfg.style = "numpydoc" ->
-         (IF w \/ ~asBuilt THEN <<L("nname", n, t, "absent", "none")>> ELSE <<>>) \o <<L("ndoc", n, "absent", p.doc, lx)>>
+         <<L("nname", n, t, "absent", "none")>> \o <<L("ndoc", n, "absent", p.doc, lx)>>      \* (the name line is always written: repaired)
 \* as built, a Google/NumPy return section that follows NO parameter section is glued to its header
 \* ("Returns:  int:" / "-------int"): the emitter-side cause of the finding gn_return_only_mangled
 EmitReturnGlued(cfg, r) ==
